@@ -405,7 +405,13 @@ def rule_k4(ctx) -> None:
             decoded.add(n.targets[0].id)
     for r in [n for n in own_nodes(load.node) if isinstance(n, ast.Return) and n.value is not None]:
         v = r.value
-        ok = (isinstance(v, ast.Name) and v.id in decoded) or (isinstance(v, ast.Dict) and not v.keys) or (isinstance(v, ast.Call) and unparse(v.func) in ("dict", "json.load", "json.loads"))
+
+        def fresh(e) -> bool:
+            if isinstance(e, ast.IfExp):
+                return fresh(e.body) and fresh(e.orelse)
+            return (isinstance(e, ast.Name) and e.id in decoded) or (isinstance(e, ast.Dict) and not e.keys) or (isinstance(e, ast.Call) and unparse(e.func) in ("dict", "json.load", "json.loads"))
+
+        ok = fresh(v)
         ctx.instance("C12-K4", "load_cache: return %s" % unparse(v)[:40], load.loc(r), ok=ok)
         if not ok:
             ctx.finding("C12-K4", "CacheManager.load_cache:returns-held-object", load.loc(r), "load_cache returns %s, an object kept by the manager, instead of freshly decoded data: rows handed to an earlier caller (and edited there) are served again on the next hit" % unparse(v)[:40])
